@@ -67,6 +67,7 @@ impl Prop for C10Prop {
             keyings: 1,
             boundary_per_mille: 6,
             huge_one_in: 1000,
+            hub_one_in: 1000,
         }
         .gen("C10", seed, idx);
         // H is the point here: the same graph under >= 8 hash keyings (keying 0 always included)
@@ -74,6 +75,8 @@ impl Prop for C10Prop {
             Tier::Quick => 8,
             Tier::Thorough => 16,
         };
+        // graphs of more than 4 096 nodes: three keyings (the per-node queries dominate the run)
+        let k = if case.ops.len() > 0 && matches!(&case.ops[0], Op::AddNodes(ns) if ns.len() > 4000) { 3 } else { k };
         case.envs = gen::envs(seed, k);
         case
     }
@@ -87,6 +90,33 @@ impl Prop for C10Prop {
         let budget = rt::budget(n, snap.edges.len());
         let reach = Reach::new(snap);
         let kd = if snap.directed { "directed" } else { "undirected" };
+        let index: std::collections::BTreeMap<&str, usize> = snap.names.iter().enumerate().map(|(i, s)| (s.as_str(), i)).collect();
+        // start nodes of the per-node queries: every node; above 600 nodes the two nodes of highest degree, the
+        // five of lowest degree and 14 seeded others
+        let starts: Vec<usize> = if n <= 600 {
+            (0..n).collect()
+        } else {
+            let mut deg = vec![0usize; n];
+            for &(x, y, _) in &snap.edges {
+                deg[x] += 1;
+                deg[y] += 1;
+            }
+            let mut by: Vec<usize> = (0..n).collect();
+            by.sort_by_key(|i| (deg[*i], *i));
+            let mut v: Vec<usize> = by.iter().take(5).copied().collect();
+            v.extend(by.iter().rev().take(2).copied());
+            // nodes from which a node of very high degree is reached late (not adjacent to it)
+            for &h in by.iter().rev().take(2) {
+                let nb: BTreeSet<usize> = snap.edges.iter().filter(|e| e.0 == h || e.1 == h).map(|e| if e.0 == h { e.1 } else { e.0 }).collect();
+                v.extend((0..n).filter(|i| *i != h && !nb.contains(i) && deg[*i] >= 2).take(3));
+            }
+            let mut sr = Rng::new(case.seed, "c10.starts");
+            for _ in 0..14 {
+                v.push(sr.below(n));
+            }
+            cx.count("probe.large_graph_sampled_starts");
+            v
+        };
         macro_rules! lib {
             ($label:expr, $e:expr) => {
                 match rt::call($label, budget, || $e) {
@@ -170,7 +200,7 @@ impl Prop for C10Prop {
                     return;
                 }
             }
-            for x in 0..n {
+            for &x in &starts {
                 let name = snap.names[x].clone();
                 match lib!("node_connected_component", components::node_connected_component(g, &name)) {
                     Ok(set) => {
@@ -193,10 +223,10 @@ impl Prop for C10Prop {
             wrong_method!("weakly_connected_components", r);
         }
         // breadth-first search from every node
-        for x in 0..n {
+        for &x in &starts {
             let name = snap.names[x].clone();
             let bfs = lib!("breadth_first_search", g.breadth_first_search(&name));
-            let set: BTreeSet<usize> = bfs.iter().filter_map(|y| snap.names.iter().position(|z| z == y)).collect();
+            let set: BTreeSet<usize> = bfs.iter().filter_map(|y| index.get(y.as_str()).copied()).collect();
             if bfs.first() != Some(&name) || set.len() != bfs.len() || set != reach.reachable(x) {
                 cx.fail("C10.bfs", &format!("breadth_first_search {}", kd), format!("breadth_first_search({:?}) (keying {}) = {:?}; expected {:?} first, then exactly {:?} once each", name, env.keying, bfs, name, reach.reachable(x).iter().map(|i| &snap.names[*i]).collect::<Vec<_>>()));
                 return;
@@ -232,7 +262,7 @@ impl Prop for C10Prop {
         }
     }
     fn rule(&self) -> String {
-        "graphs of all 8 kinds, n <= 40, biased to nested strongly connected components (cycles sharing nodes, cycles of cycles, DAG + back edges), long cycles, many small components, isolated nodes, self-loops, parallel edges; each graph analysed under 8 (quick) / 16 (thorough) hash keyings (the SCC routine's visit order follows HashSet iteration): connected / weakly / strongly connected components are set partitions equal to the classes of the Warshall closure, number_of_connected_components, node_connected_component(x) for every x, breadth_first_search(x) for every x, bfs_equal_size_partitions(k) for k in {1,2,3,n,n+1,random}, WrongMethod on the other kind. evaluations = graphs; each is run under every keying. distinct_nontrivial = distinct graphs with >= 2 edges; one case in 1000 is a dense graph (1-3 blocks, 60-300 nodes) with 2 100 - 12 500 stored edges under a pool of 2-16 workers (strategy thresholds)".into()
+        "graphs of all 8 kinds, n <= 40, biased to nested strongly connected components (cycles sharing nodes, cycles of cycles, DAG + back edges), long cycles, many small components, isolated nodes, self-loops, parallel edges; each graph analysed under 8 (quick) / 16 (thorough) hash keyings (the SCC routine's visit order follows HashSet iteration): connected / weakly / strongly connected components are set partitions equal to the classes of the Warshall closure, number_of_connected_components, node_connected_component(x) for every x, breadth_first_search(x) for every x, bfs_equal_size_partitions(k) for k in {1,2,3,n,n+1,random}, WrongMethod on the other kind. evaluations = graphs; each is run under every keying. distinct_nontrivial = distinct graphs with >= 2 edges; one case in 1000 is a dense graph (1-3 blocks, 60-300 nodes) with 2 100 - 12 500 stored edges under a pool of 2-16 workers (strategy thresholds); one case in 1000 has 4 150 - 4 600 nodes with one or two hubs adjacent to more than 4 096 of them (3 keyings; closure by search; per-node queries from the nodes of highest and lowest degree, nodes not adjacent to a hub, and 14 seeded others)".into()
     }
     fn assumptions(&self) -> Vec<String> {
         vec!["bfs_equal_size_partitions: only k parts, exact cover and size <= floor(n/k)+1 are required".into()]
